@@ -126,7 +126,10 @@ def sspec(mult, cvs, geo, data):
     return " ".join(parts)
 
 
-NONDYADIC = [1.123456789, -3.987654321, 0.3, 2.718281828459045, -0.1234567891234, 7.000000001, 1e-3 * 3.3333333]
+NONDYADIC = [1.123456789, -3.987654321, 0.3, 2.718281828459045, -0.1234567891234, 7.000000001, 1e-3 * 3.3333333,
+             # boundaries whose 15-digit rounding error exceeds the readers' 1e-10: a file written on such a grid is re-gridded when
+             # read back by the same grid (premise of C15_roundtrip_multicol_formatted not met); the data must still come back
+             123456.78901234567, -98765.432109876543]
 NDWIDTH = [0.3, 0.1234, 1.0 / 3.0, 0.7, 2.5e-2, 1.1]
 
 
@@ -254,7 +257,7 @@ def gen_io_case(r, k):
             if dy_geom:
                 w = r.choice([1.0, 0.5, 0.25, 2.0, 0.75]); lo = V.dyadic(r, -4, 4)
             else:
-                w = r.choice(NDWIDTH); lo = r.choice(NONDYADIC)
+                w = r.choice(NDWIDTH); lo = r.choice(NONDYADIC[:7])   # (periodicity of a variable is ill-conditioned at 1e5)
             up = lo + n * w
             periodic = r.random() < 0.4
             cv = {"lower": lo, "upper": up, "width": w, "period": (up - lo) if periodic else 0.0}
@@ -588,7 +591,12 @@ def run_io(run, r, unit, model, n):
         else:
             run.dist("io:damaged:" + mut.split(":")[0])
             # (a re-gridded file cut between two records cannot be told from a shorter file: only the tie applies there)
-            if gi is not None and mut.startswith("truncate") and f != "remap":
+            # nor can a file whose boundaries do not survive their own formatting within the reader's 1e-10: it is re-gridded
+            # by the grid that wrote it (|boundary| above ~2e4 at 15 digits; premise of C15_roundtrip_multicol_formatted)
+            regrid = f in ("multicol", "file") and any(abs(float("%.14e" % x) - x) > 1e-10 for x in c["g"]["lower"] + c["g"]["width"])
+            if regrid:
+                run.dist("io:regridded-by-rounding")
+            if gi is not None and mut.startswith("truncate") and f != "remap" and not regrid:
                 run.violation("io:truncated-accepted:" + f, "a %s file %s was accepted without any error (grid returned: %s)" % (f, mut, oi[:200]),
                               {"kind": "io", "read": a, "text": text})
             if gi is None:
@@ -765,6 +773,9 @@ def run_round4(run, r, unit, model, n):
         nx = [r.randint(1, 6) for _ in range(nd)]
         lower = [V.dyadic(r, -4, 4) for _ in range(nd)]
         wd = [r.choice(widths) for _ in range(nd)]
+        if r.random() < 0.3:      # the same geometry at another scale (1e-8 .. 1e8): exact, powers of two
+            sc_ = 2.0 ** r.randint(-27, 27)
+            lower = [l * sc_ for l in lower]; wd = [w * sc_ for w in wd]
         per = [r.randint(0, 1) for _ in range(nd)]
         xs = []
         for d in range(nd):
@@ -828,7 +839,8 @@ def run_round4(run, r, unit, model, n):
                 fl = q.numerator // q.denominator
                 if b != fl:
                     bad = "value %r: bin %d, the bin that contains it is %d" % (xs[d], b, fl)
-                elif not (0 <= bb < nx[d]) or (0 <= fl < nx[d] and bb != fl) or (not per[d] and fl < 0 and bb != 0) or (not per[d] and fl >= nx[d] and bb != nx[d] - 1):
+                elif not (0 <= bb < nx[d]) or (0 <= fl < nx[d] and bb != fl) or (not per[d] and fl < 0 and bb != 0) or (not per[d] and fl >= nx[d] and bb != nx[d] - 1) \
+                        or (per[d] and bb != fl % nx[d]):    # periodic: the bin that contains the value modulo the period
                     bad = "value %r (bin %d of %d, periodic %d): bounded bin %d" % (xs[d], fl, nx[d], per[d], bb)
                 elif not (0 <= fr_ < 1) or fl + fr_ != q:
                     bad = "value %r: fraction %s inside bin %d, (x-lower)/width = %s" % (xs[d], float(fr_), fl, float(q))
@@ -939,13 +951,50 @@ def run_round4(run, r, unit, model, n):
             mb = None
         if mb is None or mb != b or mbb != bb or mf != fr_:
             run.mismatch("ops:current-values", cmd[:300], li[:200], lm[:200])
+    # ---- bin_distance_from_boundaries on real (non-periodic and periodic) variables
+    bl, bm = [], []
+    for k in range(max(8, n // 10)):
+        nd = r.choice([1, 2, 3])
+        cvs, xs = [], []
+        for d in range(nd):
+            w = r.choice([1.0, 0.5, 0.25, 2.0]); lo = V.dyadic(r, -4, 4); m = r.randint(1, 5)
+            up = lo + m * w
+            cvs.append({"lower": lo, "upper": up, "width": w, "period": (up - lo) if r.random() < 0.3 else 0.0, "n": m})
+            q = r.random()
+            xs.append(lo + r.randint(-1, m + 1) * w if q < 0.35 else (lo - r.randint(1, 15) * w / 8 if q < 0.5 else
+                      (up + r.randint(1, 15) * w / 8 if q < 0.65 else lo + r.randint(0, 8 * m) * w / 8)))
+        bl.append("SW " + sspec(1, cvs, cvs, []) + " BDIST " + " ".join(V.hexf(x) for x in xs))
+        bm.append((cvs, xs))
+    rc1, oi, e1 = V.run_lines(unit, bl)
+    ml = ["BDIST %d %s %s %s %s %s" % (len(cvs), " ".join("1" if c["period"] > 0 else "0" for c in cvs), " ".join(V.hexf(c["lower"]) for c in cvs),
+                                       " ".join(V.hexf(c["upper"]) for c in cvs), " ".join(V.hexf(c["width"]) for c in cvs), " ".join(V.hexf(x) for x in xs))
+          for cvs, xs in bm]
+    rc2, om, e2 = V.run_lines(model, ml)
+    for cmd, (cvs, xs), li, lm in zip(bl, bm, oi, om + ["?"] * len(bl)):
+        run.count(cmd, True)
+        run.dist("ops:bin-distance")
+        try:
+            got = float.fromhex(li.split()[0])
+        except (ValueError, IndexError):
+            run.mismatch("ops:bin-distance", cmd[:300], li[:200], lm[:200]); continue
+        cand = [v_ for c, x in zip(cvs, xs) if c["period"] == 0 for v_ in ((x - c["lower"]) / c["width"], (c["upper"] - x) / c["width"])]
+        want = min(cand) if cand else 1e16
+        if got != want:
+            run.violation("ops:bin-distance", "values %s on boundaries %s..%s (periodic %s): distance from the boundaries %r bins, the smallest of the signed distances is %r" % (
+                xs, [c["lower"] for c in cvs], [c["upper"] for c in cvs], [int(c["period"] > 0) for c in cvs], got, want), {"kind": "unit", "case": cmd, "impl": li})
+        try:
+            mv = float.fromhex(lm)
+        except ValueError:
+            mv = None
+        if mv != got:
+            run.mismatch("ops:bin-distance", cmd[:300], li[:200], lm[:200])
     # ---- add_extra_bin on real variables
     xl, xm = [], []
     for k in range(max(6, n // 10)):
         nd = r.choice([1, 2, 3])
         cvs = []
         for d in range(nd):
-            w = r.choice([1.0, 0.5, 0.25, 0.3, 0.7]); lo = r.choice([V.dyadic(r, -4, 4), r.choice(NONDYADIC)]); m = r.randint(1, 4)
+            w = r.choice([1.0, 0.5, 0.25, 0.3, 0.7]); lo = r.choice([V.dyadic(r, -4, 4), r.choice(NONDYADIC[:7])]); m = r.randint(1, 4)
             up = lo + m * w
             cvs.append({"lower": lo, "upper": up, "width": w, "period": (up - lo) if r.random() < 0.4 else 0.0, "n": m})
         xl.append(("SW " + sspec(1, cvs, cvs, []) + " XGRID", "XBIN %d %s" % (nd, " ".join("%s %s %s %s" % (V.hexf(c["lower"]), V.hexf(c["upper"]), V.hexf(c["width"]), V.hexf(c["period"])) for c in cvs))))
